@@ -607,6 +607,9 @@ class GroupBy:
             self._group_ikey = pa.chunked_array(chunks)
         else:
             self._group_ikey = np.concatenate(chunks)
+            # the cached chunk layout describes the old representation
+            self.__dict__.pop("_group_key_lengths", None)
+            self.__dict__.pop("_chunk_offsets", None)
 
     @cached_property
     def has_null_keys(self) -> bool:
